@@ -19,8 +19,24 @@ def _tab(T):
         t = core.PeriodicTable(T)
         mass.init(t)
         density.init(t)
+        if T == "T2":
+            customise(t)
         _T[T] = t
     return _T[T]
+
+
+def customise(t):
+    """T2 is a private table whose owner changed its data (as the guide's H=1 mass scale does): masses and densities
+    differ from the public table's, so a calculation that silently falls back to the public table gives other numbers."""
+    for el in t:
+        k = 1.0 + 0.015625 * (1 + el.number % 5)
+        if getattr(el, "_mass", None) is not None:
+            el._mass = el._mass * k
+        for iso in el:
+            if "_mass" in vars(iso) and iso._mass is not None:
+                iso._mass = iso._mass * k
+        if getattr(el, "_density", None) is not None:
+            el._density = el._density * (1.0 + 0.03125 * (1 + el.number % 3))
 
 
 def atom(z, a, q, T=None):
